@@ -1,5 +1,6 @@
 import Flatland.JsonUtil
 import Flatland.Scalar
+import Flatland.C04
 import Flatland.Generated.C04Tables
 open Lean Flatland.J
 namespace Flatland.Run.C04
@@ -140,9 +141,77 @@ def runScalar (j : Json) : Except String Json := do
     | .error _ => Json.null
   return obj [("set", first), ("reset", reset)]
 
+open Flatland.C04 in
+partial def parseSchema (j : Json) : Except String Schema := do
+  match (← sfld j "s") with
+  | "scalar" => return .scalar (← parseKind (← fld j "kind"))
+  | "seq" => return .seq (← parseSchema (← fld j "member"))
+  | "dict" =>
+    let fs ← (← afld j "fields").mapM fun f => do
+      match (← arr f) with
+      | [n, sch] => return (← chars n, ← parseSchema sch)
+      | _ => throw "bad field"
+    let pol ← match (← sfld j "policy") with
+      | "subset" => pure Policy.subset | "duck" => pure Policy.duck
+      | p => throw s!"bad policy {p}"
+    return .dict pol (fs.map (·.1)) (fs.map (·.2))
+  | "date" => return .date
+  | "joined" => return .joined (← cfld j "sep") (← bfld j "prune") (← parseKind (← fld j "member"))
+  | t => throw s!"bad schema {t}"
+
+open Flatland.C04 in
+partial def parseInput (j : Json) : Except String Input := do
+  match (← sfld j "i") with
+  | "leaf" => return .leaf (← parseNative (← fld j "v"))
+  | "list" => return .list (← (← afld j "v").mapM parseInput)
+  | "dict" =>
+    let ps ← (← afld j "v").mapM fun p => do
+      match (← arr p) with
+      | [k, v] => return (← parseNative k, ← parseInput v)
+      | _ => throw "bad dict item"
+    return .dict ps
+  | t => throw s!"bad input {t}"
+
+def stateJson (st : SState) : Json := obj [("v", ofNative st.value), ("u", ofText st.u)]
+
+open Flatland.C04 in
+partial def elemJson : Elem → Json
+  | .scalar st => stateJson st
+  | .seq ms => obj [("seq", ofList elemJson ms)]
+  | .dict ms => obj [("dict", ofList elemJson ms)]
+  | .date y m d => obj [("date", ofList stateJson [y, m, d])]
+  | .joined ms => obj [("joined", ofList stateJson ms)]
+
+open Flatland.C04 in
+def craiseName : CRaise → String
+  | .scalar r => raiseName r
+  | .keyError => "KeyError"
+  | .typeError => "TypeError"
+  | .unmodelled => "HARNESS-UNMODELLED-INPUT"
+
+/-- a container case: optional preliminary `set(pre)`, then the observed `set(x)` -/
+def runTree (j : Json) : Except String Json := do
+  let E ← envOf j
+  let S ← parseSchema (← fld j "schema")
+  let x ← parseInput (← fld j "x")
+  let start ← match j.getObjVal? "pre" with
+    | .ok pj => if isNull pj then pure (Flatland.C04.blank S) else do
+        match Flatland.C04.setElem E S (Flatland.C04.blank S) (← parseInput pj) with
+        | .ok out => pure out.elem
+        | .error _ => pure (Flatland.C04.blank S)
+    | .error _ => pure (Flatland.C04.blank S)
+  match Flatland.C04.setElem E S start x with
+  | .error e => return obj [("exc", Json.str (craiseName e)), ("flag", Json.null), ("sigs", Json.null),
+                            ("tree", Json.null)]
+  | .ok out =>
+    return obj [("exc", Json.null), ("flag", Json.bool out.flag),
+      ("sigs", ofList (fun (s : Flatland.C04.Sig) => Json.arr #[ofNats s.1, Json.bool s.2]) out.sigs),
+      ("tree", elemJson out.elem)]
+
 def run (j : Json) : Except String Json := do
   match (← sfld j "mode") with
   | "scalar" => runScalar j
+  | "tree" => runTree j
   | m => throw s!"bad mode {m}"
 
 end Flatland.Run.C04
